@@ -265,6 +265,10 @@ func zeroTerm(sort string, t types.Type) string {
 func (e *Engine) freshVal(t types.Type, prefix string) Val {
 	if s, ok := scalarSort(t); ok {
 		c := e.sc.declare(prefix, s)
+		if s == SStr {
+			// strings, like slices, are shorter than 2^40 bytes (memory is finite)
+			e.sc.assume(and(app("bvsge", app("gs_len", c), bvLit(0, 64)), app("bvslt", app("gs_len", c), bvLit(1<<40, 64))))
+		}
 		return Sc{c, s}
 	}
 	switch u := under(t).(type) {
@@ -509,6 +513,11 @@ type component struct {
 
 func pathKey(root types.Type, path []pathElem, suffix string) string {
 	var b strings.Builder
+	// the elements of an array object live in the same component as the elements of slices of
+	// that element type: slicing an array variable (arr[:]) aliases it
+	if at, ok := under(root).(*types.Array); ok && len(path) > 0 && path[0].field < 0 {
+		root = types.NewSlice(at.Elem())
+	}
 	b.WriteString(typeKey(root))
 	for _, p := range path {
 		if p.field < 0 {
@@ -522,6 +531,12 @@ func pathKey(root types.Type, path []pathElem, suffix string) string {
 }
 
 func (e *Engine) comp(root types.Type, path []pathElem, suffix, leaf string) *component {
+	// an array of scalars inside a struct is one leaf (of array sort) of that struct; access to
+	// its elements (path ending in an index after a field) uses the same component
+	if n := len(path); n >= 2 && path[n-1].field < 0 && path[n-2].field >= 0 && suffix == "" {
+		path = path[:n-1]
+		leaf = arrSort(SI64, leaf)
+	}
 	key := pathKey(root, path, suffix)
 	if c, ok := e.comps[key]; ok {
 		return c
